@@ -27,7 +27,7 @@ RULE = (
     "while each arrives before last-activity+d (absolute: before D); otherwise the fallback is subscribed exactly then (or the "
     "sequence fails then), never after the source terminated; timeout_with_mapper likewise with the first firing (N or C) of "
     "the first-timeout / per-element timeout observable. Non-trivial: some element within one tick of a boundary (for timeout: "
-    "within one tick of a running deadline). In 1 case of 3 the same built observable is subscribed a second time at a generated tick s1 in s0+{0,1,2,3,7}; the same oracle is applied to that probe with its own subscribe tick, and the fallback must be subscribed once per timed-out subscription. Scheduler passing: the take/skip operators and timeout are run in the modes sub (no argument, subscription carries the lab scheduler), arg (scheduler argument, subscription carries none) and arg-other (argument, subscription carries a different never-started virtual scheduler reading +1000 ticks) and must behave identically; one in four timeout observables and fallbacks is a scheduler-less library factory (timer(d), empty(), return_value, never) that must run on the scheduler in force. Any request for the real-time TimeoutScheduler during a run is refused and reported (realtime-fallback), any action left on the decoy scheduler is reported (wrong-scheduler). Distinct = distinct case JSON."
+    "within one tick of a running deadline). In 1 case of 3 the same built observable is subscribed a second time at a generated tick s1 in s0+{0,1,2,3,7}; the same oracle is applied to that probe with its own subscribe tick, and the fallback must be subscribed once per timed-out subscription. Scheduler passing: the take/skip operators and timeout are run in the modes sub (no argument, subscription carries the lab scheduler), arg (scheduler argument, subscription carries none) and arg-other (argument, subscription carries a different never-started virtual scheduler reading +1000 ticks) and must behave identically; one in four timeout observables and fallbacks is a scheduler-less library factory (timer(d), empty(), return_value, never) that must run on the scheduler in force. Any request for the real-time TimeoutScheduler during a run is refused and reported (realtime-fallback), any action left on the decoy scheduler is reported (wrong-scheduler). skip_last_with_time additionally: every produced element appears at the documented instant - the first source element/completion instant at which it is older than d (age exactly d: that instant or the next) - and an element older than d when a later element arrives must have been produced even if the source then fails or never ends. Thorough tier goes deeper for last/timeout: up to 10 elements per timeline, half of them dense (gaps 0-2), durations up to 8 ticks. Distinct = distinct case JSON."
 )
 ASSUMPTIONS = [
     "at an exact tie between an operator timer and a source notification either order is accepted (one order per timer and instant)",
@@ -151,6 +151,10 @@ def _judge_last(case, tl, op, lab, p, cls, s0):
             v = "n:%d" % e[2][1]
             if e[0] < arr[v] + d:
                 return FAIL(f"too-early|{op}", f"{v} emitted at {e[0]}, arrived {arr[v]}, d={d}; trace={tr} tl={tl} case={case}", classes=cls), fates
+        if op == "skip_last_with_time":
+            r = _skip_last_instants(case, tl, eff, got, arr, d, cls, tr)
+            if r is not None:
+                return r, fates
         return None, None
     tc = eff[-1][0]
     tied = []
@@ -175,7 +179,36 @@ def _judge_last(case, tl, op, lab, p, cls, s0):
                 return FAIL(f"emission-time|{op}", f"{v} emitted at {e[0]}, completion at {tc}; trace={tr} tl={tl} case={case}", classes=cls), fates
         elif not (arr[v] + d <= e[0] <= tc):
             return FAIL(f"too-early|{op}", f"{v} emitted at {e[0]}, arrived {arr[v]}, d={d}, completion {tc}; trace={tr} tl={tl} case={case}", classes=cls), fates
+    if op == "skip_last_with_time":
+        r = _skip_last_instants(case, tl, eff, got, arr, d, cls, tr)
+        if r is not None:
+            return r, fates
     return None, fates
+
+
+def _skip_last_instants(case, tl, eff, got, arr, d, cls, tr):
+    """Documented (docstring): 'As more elements are received, elements older than the specified duration are taken from the
+    queue and produced'.  So an element is produced at the first source element / completion instant at which it is older
+    than d (age exactly d: that instant or the next such instant), not merely somewhere before completion; and an element
+    that is older than d when a later element arrives must have been produced even if the source then fails or never ends."""
+    op = "skip_last_with_time"
+    flush = [m[0] for m in eff if m[1] in ("N", "C")]  # instants at which the operator looks at its queue
+    pos = {m[2]: i for i, m in enumerate(eff) if m[1] == "N"}
+    emitted = {"n:%d" % e[2][1]: e[0] for e in got}
+    for v, ta in arr.items():
+        later = [t for t in flush[pos[v]:]]  # its own arrival counts (age 0)
+        c_ge = next((t for t in later if t - ta >= d), None)
+        c_gt = next((t for t in later if t - ta > d), None)
+        ok_times = {t for t in (c_ge, c_gt) if t is not None}
+        if v in emitted:
+            if emitted[v] not in ok_times:
+                return FAIL(f"emission-instant|{op}", f"{v} (arrived {ta}, d={d}) produced at {emitted[v]}, documented instant(s) {sorted(ok_times)}; trace={tr} tl={tl} case={case}", classes=cls)
+            if eff[-1][1] != "C" or emitted[v] < eff[-1][0]:
+                cls.append("skip_last:produced-before-completion")
+        elif c_gt is not None and (eff[-1][1] != "E" or c_gt < eff[-1][0] or eff[-1][1] == "C"):
+            # older than d at a later element/completion instant (strictly before a terminating error): must be out
+            return FAIL(f"not-produced|{op}", f"{v} (arrived {ta}, d={d}) was older than d at {c_gt} but never produced; trace={tr} tl={tl} case={case}", classes=cls)
+    return None
 
 
 def _run_last(case):
@@ -203,6 +236,8 @@ def _run_last(case):
 
 def _last_verdict(case, op, tl, lab, p, s0, tl2, lab2, p2, t_new):
     cls = _bcls(case)
+    if sum(1 for m in tl if m[1] == "N") >= 7:
+        cls.append("timeline>=7-elements")
     r, fates = _judge_last(case, tl, op, lab, p, cls, s0)
     if r is not None:
         return r
@@ -317,6 +352,8 @@ def _run_timeout(case):
     for p, s0 in zip(probes, ticks):
         eff = effective(case["src"], s0)
         cls = _bcls(case) + ["fallback" if other is not None else "no-fallback"]
+        if sum(1 for m in eff if m[1] == "N") >= 7:
+            cls.append("timeline>=7-elements")
         if form == "abs":
             near = _near(eff, max(case["b"], s0))
             if case["b"] < s0:
@@ -442,10 +479,10 @@ def _window_cases(draw):
 
 
 @st.composite
-def _last_cases(draw):
+def _last_cases(draw, max_len=6, ds=(0, 1, 2, 2, 3, 5)):
     op = draw(st.sampled_from(["take_last_with_time", "skip_last_with_time"]))
-    d = draw(st.sampled_from([0, 1, 2, 2, 3, 5]))
-    s0, spec = draw(sources(d=d, max_len=6, terminals=("C", "C", "C", "C", "E", None)))
+    d = draw(st.sampled_from(list(ds)))
+    s0, spec = draw(sources(d=d, max_len=max_len, terminals=("C", "C", "C", "C", "E", None)))
     if spec["kind"] == "hot":
         spec = {"kind": "hot", "tl": [m for m in spec["tl"] if m[2] != "n:99"]}
     extra = None
@@ -466,9 +503,9 @@ def _others(draw):
 
 
 @st.composite
-def _timeout_cases(draw):
-    d = draw(st.sampled_from([0, 1, 2, 2, 3, 5]))
-    s0, spec = draw(sources(d=d, max_len=6))
+def _timeout_cases(draw, max_len=6, ds=(0, 1, 2, 2, 3, 5)):
+    d = draw(st.sampled_from(list(ds)))
+    s0, spec = draw(sources(d=d, max_len=max_len))
     form = draw(st.sampled_from(FORMS + ["abs"]))
     b = d
     if form == "abs":
@@ -489,9 +526,11 @@ def _twm_cases(draw):
 def checks(tier):
     T = 16
     sh = {"quick": 4, "thorough": 16}
+    # thorough explores deeper: up to 10 elements per timeline and durations up to 8 ticks
+    deep = (6, (0, 1, 2, 2, 3, 5)) if tier == "quick" else (10, (0, 1, 2, 3, 5, 8, 8))
     return [
         Check("window", _run_window, strategy=_window_cases(), examples={"quick": 2400, "thorough": T * 12000}, shards=sh),
-        Check("last", _run_last, strategy=_last_cases(), examples={"quick": 2400, "thorough": T * 12000}, shards=sh),
-        Check("timeout", _run_timeout, strategy=_timeout_cases(), examples={"quick": 2400, "thorough": T * 12000}, shards=sh),
+        Check("last", _run_last, strategy=_last_cases(*deep), examples={"quick": 2400, "thorough": T * 12000}, shards=sh),
+        Check("timeout", _run_timeout, strategy=_timeout_cases(*deep), examples={"quick": 2400, "thorough": T * 12000}, shards=sh),
         Check("timeout_with_mapper", _run_twm, strategy=_twm_cases(), examples={"quick": 1600, "thorough": T * 12000}, shards=sh),
     ]
